@@ -155,8 +155,50 @@ def other (line : String) : String :=
   | "X" :: kind :: _cap :: ops => otherGo kind [] ops
   | _ => "bad-line"
 
+/-! #### envelope predicates and node flags (harness stream `envpreds`, lines `E mode envA envB x y`) -/
+
+def bit (b : Bool) : String := if b then "1" else "0"
+
+/-- where each ordinate of `r` comes from: `n` null, `=` both, `a`, `b`, `?` neither -/
+def origin (r a b : Env) : String :=
+  match r with
+  | none => "nnnn"
+  | some rb =>
+    let one (rv : Int) (av bv : Option Int) : String :=
+      let ea := av == some rv
+      let eb := bv == some rv
+      if ea && eb then "=" else if ea then "a" else if eb then "b" else "?"
+    one rb.minx (a.map (·.minx)) (b.map (·.minx)) ++ one rb.maxx (a.map (·.maxx)) (b.map (·.maxx)) ++
+    one rb.miny (a.map (·.miny)) (b.map (·.miny)) ++ one rb.maxy (a.map (·.maxy)) (b.map (·.maxy))
+
+def nodeFlags (n : Node Env Unit) (q : Env) : String :=
+  let del := match n with | .leaf e => e.deleted | .branch _ _ => false
+  bit n.isLeaf ++ bit del ++ bit (!n.isLeaf) ++ bit (Env.inter n.bounds q)
+
+def envCase (mode : String) (rest : List String) : String :=
+  match parseEnv mode rest with
+  | some (a, r1) =>
+    match parseEnv mode r1 with
+    | some (b, [xs, ys]) =>
+      match parseCoord mode xs, parseCoord mode ys with
+      | some x, some y =>
+        let i := Env.inter a b
+        let c := Env.covers a b
+        let p := Env.containsPt a x y
+        let u := Env.union a b
+        let leaf : Node Env Unit := .leaf ⟨a, (), false⟩
+        let rm : Node Env Unit := .leaf ⟨a, (), true⟩
+        let par : Node Env Unit := .branch u [leaf, .leaf ⟨b, (), false⟩]
+        s!"null={bit a.isNull}{bit a.isNull} int={bit i}{bit i}{bit i}{bit i} cov={bit c}{bit c} pt={bit p}{bit p}{bit p}{bit p}" ++
+        s!" exp={origin u a b}{origin u a b}{origin u a b} leaf={nodeFlags leaf b} rm={nodeFlags rm b}" ++
+        s!" par={nodeFlags par a}{nodeFlags par b}{origin u a b}"
+      | _, _ => "bad-line"
+    | _ => "bad-line"
+  | none => "bad-line"
+
 def slices (line : String) : String :=
   match Driver.tokens line with
+  | "E" :: mode :: rest => envCase mode rest
   | ["S", cap, n] =>
     match cap.toNat?, n.toNat? with
     | some cap, some n =>
